@@ -39,19 +39,21 @@ def count(rnd, big=None):
     return float(rnd.randrange(-10 ** 6, 10 ** 6))
 
 
-def fraction(rnd):
+def fraction(rnd, tiny=True):
     r = rnd.random()
     if r < 0.5:
-        return rnd.choice(FRACS)
+        f = rnd.choice(FRACS)
+        # (exact division by denormals costs TLC seconds per event: keep them rare there)
+        return f if tiny or abs(f) > 1e-100 or f == 0 or rnd.random() < 0.04 else rnd.uniform(-0.5, 0.5)
     if r < 0.9:
         return rnd.uniform(-0.5, 0.5)
     return rnd.uniform(-1, 1) * 10.0 ** rnd.randint(-30, -3)
 
 
-def phase(rnd, big=None, im=False, n=None, shape=None):
+def phase(rnd, big=None, im=False, n=None, shape=None, tiny=True):
     """recipe of a scalar (n None) or array phase"""
     m = n or 1
-    return {"i": [hx(count(rnd, big)) for _ in range(m)], "f": [hx(fraction(rnd)) for _ in range(m)],
+    return {"i": [hx(count(rnd, big)) for _ in range(m)], "f": [hx(fraction(rnd, tiny)) for _ in range(m)],
             "im": bool(im), "shape": (shape or [n]) if n else None}
 
 
@@ -216,7 +218,7 @@ def gen_divmod(rnd, n):
         arr = rnd.random() < 0.3
         m = rnd.choice([2, 3]) if (arr or kind in pd.ARRAY_KINDS) else None
         big = rnd.random() < 0.3
-        ph = phase(rnd, big=big, n=m if arr else None)
+        ph = phase(rnd, big=big, n=m if arr else None, tiny=False)
         exactmult = rnd.random() < 0.3
 
         def dval(integer, big=big):
@@ -286,12 +288,12 @@ def fixed_cases():
 
 def recipes(rnd, scale):
     rc = fixed_cases()
-    rc += gen_new(rnd, 140 * scale)
-    rc += gen_addsub(rnd, 330 * scale)
-    rc += gen_muldiv(rnd, 420 * scale)
-    rc += gen_unary(rnd, 110 * scale)
-    rc += gen_divmod(rnd, 260 * scale)
-    rc += gen_trig(rnd, 50 * scale)
+    rc += gen_new(rnd, 200 * scale)
+    rc += gen_addsub(rnd, 460 * scale)
+    rc += gen_muldiv(rnd, 560 * scale)
+    rc += gen_unary(rnd, 150 * scale)
+    rc += gen_divmod(rnd, 330 * scale)
+    rc += gen_trig(rnd, 60 * scale)
     return rc
 
 
